@@ -267,7 +267,7 @@ theorem DReach.toKReach {body : σ → Resume → Burst ℚ σ} {fuel : Nat} {s0
   | step _ _ hs ih => exact KReach.step ih hs
 
 /-- when the clock is about to advance nothing is due now, so no rescan is pending -/
-theorem not_pend_of_advance {s : KState ℚ σ} (hwf : AgendaWF s) (ha : AboutToAdvance s) (cb : Cb) : ¬ Pend s [] cb := by
+theorem not_pend_of_advance {s : KState ℚ σ} (_hwf : AgendaWF s) (ha : AboutToAdvance s) (cb : Cb) : ¬ Pend s [] cb := by
   rintro (hp | ⟨q0, hq0, ht0, _⟩)
   · cases hp
   · cases hpop : popMin s.agenda with
@@ -414,3 +414,50 @@ theorem beq_preemptive_of_container {k : ResKind} (h : k = .container) : k ≠ .
 
 theorem not_preemptive_of_store {k : ResKind} (h : isStoreKind k = true) : k ≠ .preemptive := by
   intro hk; rw [hk] at h; exact absurd h (by decide)
+
+/-! ## the prologues of `run(until=number)` / `run(until=event)` keep the invariant -/
+
+theorem Pkg.scheduleAt {s : KState ℚ σ} {ex : Option EvId} (h : Pkg s ex) (x : EvId) (p : Nat) (t : ℚ)
+    (hx : (s.ev x).out ≠ none) : Pkg (s.scheduleAt x p t) ex := by
+  refine ⟨?_, h.procKind, h.checkKind, h.putQ, h.getQ, h.nodupP, h.nodupG, h.usersIn, h.usersLe⟩
+  intro q hq
+  rcases List.mem_cons.mp hq with rfl | hq
+  · exact hx
+  · exact h.agTrig q hq
+
+theorem NR.scheduleAt (s : KState ℚ σ) (x : EvId) (p : Nat) (t : ℚ) : NR s (s.scheduleAt x p t) :=
+  ⟨⟨rfl, ⟨[_], rfl⟩, Nat.le_refl _, fun _ _ => rfl, fun _ l hl => ⟨l, hl, fun _ _ hm => hm⟩, fun _ h => h,
+    fun _ _ => rfl, fun _ h => h, fun _ => ⟨rfl, rfl⟩⟩, rfl⟩
+
+theorem AgendaWF.scheduleAt {s : KState ℚ σ} (h : AgendaWF s) (x : EvId) (p : Nat) (t : ℚ) (ht : s.now ≤ t) :
+    AgendaWF (s.scheduleAt x p t) := by
+  refine ⟨?_, ?_, ?_⟩
+  · intro q hq
+    rcases List.mem_cons.mp hq with rfl | hq
+    · exact ht
+    · exact h.due q hq
+  · intro q hq
+    rcases List.mem_cons.mp hq with rfl | hq
+    · exact Nat.lt_succ_self _
+    · exact Nat.lt_succ_of_lt (h.eid_lt q hq)
+  · refine List.pairwise_cons.mpr ⟨?_, h.distinct⟩
+    intro q hq
+    exact Nat.ne_of_gt (h.eid_lt q hq)
+
+/-- the state in which `run(until=at_)` enters its step loop (`runUntilTime`) -/
+theorem sinv_untilTime_start {s : KState ℚ σ} (h : SInv s) (at_ : ℚ) (hlt : s.now < at_) :
+    SInv ((((s.newEv { kind := .sentinel, cbs := some [], out := some (.ok .none) }).1.scheduleAt s.events.size URGENT at_)).addCb
+      s.events.size .stop) := by
+  have hp := Pushed.newEv s { kind := .sentinel, cbs := some [], out := some (.ok .none) }
+  have k1 : Keeps s (s.newEv { kind := .sentinel, cbs := some [], out := some (.ok .none) }).1 :=
+    ⟨hp.pkg h.j.pkg (by intro l c hl hm; simp only [Option.some.injEq] at hl; subst hl; simp at hm), hp.nr⟩
+  have k2 := k1.trans ⟨k1.1.scheduleAt s.events.size URGENT at_ (by rw [hp.ev_new]; simp), NR.scheduleAt _ _ _ _⟩
+  have k3 := k2.trans (addCb_keeps k2.1 s.events.size .stop (by intro c hc; cases hc))
+  have w1 : AgendaWF (s.newEv { kind := .sentinel, cbs := some [], out := some (.ok .none) }).1 :=
+    ⟨h.wf.due, h.wf.eid_lt, h.wf.distinct⟩
+  have w2 := w1.scheduleAt s.events.size URGENT at_ (le_of_lt hlt)
+  exact ⟨⟨w2.due, w2.eid_lt, w2.distinct⟩, (h.j.keeps k3).1⟩
+
+/-- the state in which `run(until=event)` enters its step loop (`runUntilEvent`) -/
+theorem sinv_untilEvent_start {s : KState ℚ σ} (h : SInv s) (e : EvId) : SInv (s.addCb e .stop) :=
+  ⟨⟨h.wf.due, h.wf.eid_lt, h.wf.distinct⟩, (h.j.keeps (addCb_keeps h.j.pkg e .stop (by intro c hc; cases hc))).1⟩
